@@ -439,6 +439,46 @@ INCLUDES = [
 ]
 
 
+def replay_file(prop, mod, path):
+    """./check Cxx --replay <path>: run a saved counterexample (the unit tests Kani generated for the
+    failed checks of one harness) natively against /repo's current tree. exit 1 + VIOLATION line if it
+    still fails, 0 if it passes now, 2 if it cannot be run."""
+    try:
+        text = open(path).read()
+    except OSError as e:
+        log(f"cannot read {path}: {e}")
+        return 2
+    m = re.search(r"harness (\S+)", text.splitlines()[0]) if text else None
+    if not m:
+        log("replay file has no harness header")
+        return 2
+    full = m.group(1)
+    seed = int(os.environ.get("VERIF_SEED", "0") or 0)
+    for tier in ("quick", "thorough"):
+        groups, _ = mod.plan(tier, seed)
+        for g in groups:
+            for h in g.harnesses:
+                if h.full == full:
+                    if g.pre:
+                        g.pre()
+                    ensure_includes()
+                    ensure_playback_stubs({playback_file(g, hh) for hh in g.harnesses})
+                    logdir = os.path.join(VERIF, ".logs", prop)
+                    os.makedirs(logdir, exist_ok=True)
+                    body = "\n".join(l for l in text.splitlines() if not l.startswith("// "))
+                    ok = run_playback(g, h, body, logdir)
+                    if ok is True:
+                        log(f"VIOLATION property={prop} replay={path}")
+                        return 1
+                    if ok is False:
+                        log(f"replay of {full} passes on the current tree")
+                        return 0
+                    log("native playback could not be run")
+                    return 2
+    log(f"harness {full} is not generated by the current plan (try another VERIF_SEED)")
+    return 2
+
+
 def ensure_includes():
     for rel in INCLUDES:
         p = os.path.join(GEN, rel)
